@@ -3,13 +3,14 @@
 w=$1
 cd $w || exit 2
 export CARGO_TARGET_DIR=$w/target CARGO_NET_OFFLINE=true
+pkg=sudachi; [ -f sudachi-cli/tests/seed_demo.rs ] && pkg=sudachi-cli
 echo "--- demo WITH change (expect failure)"
-cargo test -p sudachi --test seed_demo --offline 2>&1 | grep -E "^test result|error\[|could not compile" | head -3
+cargo test -p $pkg --test seed_demo --offline 2>&1 | grep -E "^test result|error\[|could not compile" | head -3
 git apply -R SEED/patch.diff || exit 3
 echo "--- demo WITHOUT change (expect ok)"
-cargo test -p sudachi --test seed_demo --offline 2>&1 | grep -E "^test result|error\[|could not compile" | head -3
+cargo test -p $pkg --test seed_demo --offline 2>&1 | grep -E "^test result|error\[|could not compile" | head -3
 git apply SEED/patch.diff || exit 4
 echo "--- existing suite WITH change"
-mv sudachi/tests/seed_demo.rs /tmp/seed_demo_$$.rs
+mv $pkg/tests/seed_demo.rs /tmp/seed_demo_$$.rs
 cargo test --workspace --no-fail-fast --offline 2>&1 | grep -E "^test result" | awk '{p+=$4; f+=$6} END {print "passed",p,"failed",f}'
-mv /tmp/seed_demo_$$.rs sudachi/tests/seed_demo.rs
+mv /tmp/seed_demo_$$.rs $pkg/tests/seed_demo.rs
